@@ -1,5 +1,5 @@
 """C08 - a page's result does not depend on processing history or schedule."""
-from sim import decworld
+from sim import decworld, pipeline
 
 PROP = 'C08'
 LEVEL = 'exploration'
@@ -8,7 +8,8 @@ TIERS = {
     'thorough': {'runs': 160000, 'wall_per_run': 120},
 }
 REQUIRED_PROBES = ['instance_processed_2plus_pages_with_lm_carry', 'page_after_predecessor',
-                   'fault_swallowed_then_later_page_compared']
+                   'fault_swallowed_then_later_page_compared', 'multi_page_run_with_lm_carry', 'scenario_pool',
+                   'scenario_crash', 'scenario_seq', 'pool_chunk_with_2plus_pages']
 RULE = ('plans = seeded histories of 2-10 operations (process page / pickle round trip / restart / injected '
         'transient LM exception / line without logits) on up to 3 long-lived PageParser instances over 2-5 '
         'generated pages, decoder knobs randomised per plan; non-trivial = an instance that had already '
@@ -30,10 +31,26 @@ def warmup():
     import torch
     torch.set_num_threads(1)
     import pero_ocr.document_ocr.page_parser  # noqa
-    plan = decworld.gen_plan(0, 'warm', 0)
-    decworld.execute(plan)
+    import cv2
+    cv2.setNumThreads(1)
+    import parse_folder  # noqa
+    decworld.execute(decworld.gen_plan(0, 'warm', 0))
+    pipeline.execute_c08b(pipeline.gen_plan_c08b(0, 'warm', 0))
+    pipeline.execute_c08b(pipeline.gen_plan_c08b(0, 'warm', 3))
 
 
-gen_plan = decworld.gen_plan
-execute = decworld.execute
-shrink_candidates = decworld.shrink_candidates
+LAYER_B_EVERY = 16      # every 16th plan is a whole-parse_folder (pfworld) plan
+
+
+def gen_plan(seed, tier, index):
+    if index % LAYER_B_EVERY == LAYER_B_EVERY - 1:
+        return pipeline.gen_plan_c08b(seed, tier, index)
+    return decworld.gen_plan(seed, tier, index)
+
+
+def execute(plan):
+    return pipeline.execute_c08b(plan) if plan['world'] == 'pf8' else decworld.execute(plan)
+
+
+def shrink_candidates(plan):
+    return pipeline.shrink_c08b(plan) if plan['world'] == 'pf8' else decworld.shrink_candidates(plan)
